@@ -1,0 +1,11 @@
+// Copyright 2026 The Go Authors. All rights reserved.
+// Use of this source code is governed by a BSD-style
+// license that can be found in the LICENSE file.
+
+//go:build !verif && (!goexperiment.jsonv2 || !go1.25)
+
+package json
+
+// verifPoint is an instrumentation point for external runtime monitors.
+// Without the "verif" build tag it is empty and inlined away.
+func verifPoint(p int) {}
